@@ -7,7 +7,7 @@ from gens import hexs
 
 ID = "C12"
 FORMAT_GROUP = "syntax"
-LEAN_MODULES = ["LexVerif.Props.C12", "LexVerif.Props.C04Format", "LexVerif.Props.Literals.ParseFloatParse", "LexVerif.Props.Literals.ParseFloatShared", "LexVerif.Props.Literals.ParseIntegerAlgorithm", "LexVerif.Props.Literals.UtilSkip", "LexVerif.Props.Literals.UtilNoskip", "LexVerif.Props.Literals.UtilIterator", "LexVerif.Props.Literals.UtilDigit", "LexVerif.Props.Literals.ParseFloatApi", "LexVerif.Props.Literals.ParseIntegerApi", "LexVerif.Props.Literals.UtilFormatFlags", "LexVerif.Props.Literals.UtilFeatureFormat", "LexVerif.Props.Literals.UtilFormatBuilder"]
+LEAN_MODULES = ["LexVerif.Props.C12", "LexVerif.Props.C12Sep", "LexVerif.Props.C04Format", "LexVerif.Props.Literals.ParseFloatParse", "LexVerif.Props.Literals.ParseFloatShared", "LexVerif.Props.Literals.ParseIntegerAlgorithm", "LexVerif.Props.Literals.UtilSkip", "LexVerif.Props.Literals.UtilNoskip", "LexVerif.Props.Literals.UtilIterator", "LexVerif.Props.Literals.UtilDigit", "LexVerif.Props.Literals.ParseFloatApi", "LexVerif.Props.Literals.ParseIntegerApi", "LexVerif.Props.Literals.UtilFormatFlags", "LexVerif.Props.Literals.UtilFeatureFormat", "LexVerif.Props.Literals.UtilFormatBuilder"]
 GEN = ["literals"]
 TRUSTED = [
     "Lean 4.33.0 kernel; axioms of each theorem listed under coverage.theorems",
@@ -28,7 +28,13 @@ TECHNIQUE = "Lean 4 proof (iterator and parse_number invariants on a faithful mo
 LEVEL_TEXT = ("Proved in Lean about a statement-by-statement model of the float syntax layer (parse_number, sign/digit/exponent phases, skip and no-skip iterators, specials): "
               "peek/step/take_n invariants (cursor never leaves the buffer, counts, returned bytes), parse_sign indices, parse_digits stays in the buffer and terminates. "
               "The model is tied to the Rust by correspondence on ~870k ops over ~90 formats (exhaustive strings over the number alphabet up to length 5-6, long digit runs, huge exponents, specials) with 0 mismatches, "
-              "also in debug-assertion mode. The acceptance theorem against the documented grammar (Spec.Grammar) is being proved class by class; until then acceptance vs. grammar is decided by the correspondence. Partial proof, stated as such.")
+              "also in debug-assertion mode. The acceptance theorem against the documented grammar (Spec.Grammar) is being proved class by class; until then acceptance vs. grammar is decided by the correspondence. Partial proof, stated as such. "
+              "Proved so far: accepts_iff_grammar_partial (Props/C12.lean: every format without digit separator and base prefix, every feature set) and "
+              "accepts_iff_grammar_sep_partial (Props/C12Sep.lean: every format without base prefix, digit-separator byte and separator flags on ANY "
+              "components, on inputs without the separator byte = the scope of C12): accepted => the grammar derives the input with the same sign, "
+              "digit slices and exponent (or the same special), Error => the grammar rejects. The digit-separator exclusion fell with the repaired "
+              "finding sep-format-uncounted-8digit-block (/repo 7e8a135 + 12a2453; regression_sep_format_* are the former witnesses '12345678', "
+              "'1.123456789'). Still excluded, with decided witnesses: base prefix, empty input / bare sign.")
 LEVEL_NOTE = "Trusted: Lean kernel; that Model.ParseNumber/Model.Iter mirror parse.rs/skip.rs (correspondence); Spec.Grammar is read off the documentation (kept short; reviewed by hand)."
 
 
